@@ -107,10 +107,13 @@ func (p *Changes) deleteMod(dir string) {
 func (p *Changes) Fetch(fullPath bool) (dir string) {
 	p.mutex.Lock()
 	for len(p.changed) == 0 {
+		verifHook(p, "fetch:before-wait", "")
 		p.cond.Wait()
+		verifHook(p, "fetch:after-wait", "")
 	}
 	for dir = range p.changed {
 		delete(p.changed, dir)
+		verifHook(p, "fetch:took", dir)
 		break
 	}
 	p.mutex.Unlock()
@@ -133,7 +136,9 @@ func (p *Changes) FileChanged(name string) {
 	p.mutex.Lock()
 	n := len(p.changed)
 	p.changed[dir] = none{}
+	verifHook(p, "report:inserted", dir)
 	p.mutex.Unlock()
+	verifHook(p, "report:unlocked", dir)
 	if n == 0 {
 		p.cond.Broadcast()
 	}
